@@ -39,6 +39,10 @@ PROPS = {
     "C12": dict(profiles=[("mixed", True, 3), ("calls", True, 3), ("events", True, 3)], alphabet=ALL_KINDS, mc=["MC_Versions_14_20", "MC_Versions_20_14", "MC_Versions_15_19", "MC_Versions_17_18"]),
 }
 
+# real-client traffic (bus-programs) whose broker trace is judged as well
+CLIENT_MIX = {"C02": "calls", "C03": "chaos,discovery", "C04": "events,calls", "C05": "channels,chaos", "C09": "all",
+              "C10": "chaos,discovery", "C11": "chaos,channels", "C12": None}
+
 TIERS = {
     "quick": dict(runs=40, length=160, seeds=1, mc_workers=8, mc_timeout=900),
     "thorough": dict(runs=300, length=260, seeds=6, mc_workers=16, mc_timeout=3300),
@@ -93,6 +97,37 @@ def fuzz_and_validate(prop, tier, seed, verdict, cov):
             cov["traces"] += 1
     cov["distinct_nontrivial"] = len(sigs)
     cov["samples"] = samples
+
+
+def real_clients(prop, tier, seed, verdict, cov):
+    """Broker traces produced by real clients (bus-programs) judged by the same observer."""
+    mix = CLIENT_MIX.get(prop)
+    if not mix:
+        return
+    runs = 40 if tier == "quick" else 600
+    wd = vlib.workdir(f"{prop}-{tier}")
+    cpath = os.path.join(wd, "rc-client.ndjson")
+    bpath = os.path.join(wd, "rc-broker.ndjson")
+    args = ["--seed", seed * 1000 + 55, "--runs", runs, "--mix", mix, "--out-client", cpath, "--out-broker", bpath]
+    vlib.run_driver("bus-programs", args, timeout=3000)
+    res = vlib.tlc_trace("Trace_Obs.tla", "Trace_Obs.cfg", bpath)
+    if not res["consumed"]:
+        raise vlib.ToolError(f"trace {bpath} was not consumed by the observer")
+    cov["real_client_runs"] = runs
+    cov["real_client_records"] = res["states"] - 1
+    recs = None
+    for (idx, p, why) in res["violations"]:
+        recs = recs or vlib.read_ndjson(bpath)
+        a, b = vlib.run_of_record(recs, idx)
+        if p == prop or (prop == "C11" and why.startswith("panic")):
+            verdict.violation(why, dict(kind="bus-programs-broker", driver_args=[str(x) for x in args], record_index=idx,
+                                        trace=recs[a:b], violated_at=recs[idx - 1]))
+        else:
+            verdict.note(f"violation of {p} observed while checking {prop} (real clients): {why} (record {idx})")
+    conf = vlib.tlc_trace("Trace_Broker.tla", "Trace_Broker.cfg", bpath)
+    for (idx, why) in conf["drifts"]:
+        cov["drift"] += 1
+        log(f"DRIFT property={prop} the broker deviates from Broker.tla: {why} (real clients, record {idx})")
 
 
 def model_check(prop, tier, seed, verdict, cov):
@@ -173,9 +208,10 @@ def run(prop, tier, seed):
     t0 = time.time()
     verdict = vlib.Verdict(prop)
     cov = dict(records=0, runs=0, traces=0, messages_sent=0, states=0, transitions=0, drift=0)
-    vlib.build_harness(["broker-drivers", "bus-driver"] if prop == "C12" else ["broker-drivers"])
+    vlib.build_harness(["broker-drivers", "bus-driver"])
     model_check(prop, tier, seed, verdict, cov)
     fuzz_and_validate(prop, tier, seed, verdict, cov)
+    real_clients(prop, tier, seed, verdict, cov)
     if prop == "C12":
         handshake(prop, tier, seed, verdict, cov)
         client_versions(prop, tier, seed, verdict, cov)
@@ -191,6 +227,7 @@ def run(prop, tier, seed):
         records_validated=cov["records"],
         messages_sent=cov["messages_sent"],
         conformance_drifts=cov["drift"],
+        real_client_runs=cov.get("real_client_runs", 0), real_client_broker_records=cov.get("real_client_records", 0),
         handshake_rows_replayed=cov.get("handshake_rows", 0),
         client_version_runs=cov.get("client_version_runs", 0),
         client_version_payloads_to_old_clients=cov.get("client_version_payloads", 0),
@@ -234,6 +271,28 @@ def replay(prop, path, seed):
             a, b = vlib.run_of_record(recs, idx)
             verdict.violation(why, dict(kind="fuzz-broker", driver_args=args, record_index=idx, run_first_record=a + 1,
                                         trace=recs[a:b], violated_at=recs[idx - 1]))
+    elif data.get("kind") in ("bus-programs-broker", "bus-programs"):
+        args = list(data["driver_args"])
+        cpath = os.path.join(wd, "client.ndjson")
+        bpath = os.path.join(wd, "broker.ndjson")
+        args[args.index("--out-client") + 1] = cpath
+        args[args.index("--out-broker") + 1] = bpath
+        vlib.run_driver("bus-programs", args, timeout=3000)
+        for (spec, cfgf, path) in (("Trace_Obs.tla", "Trace_Obs.cfg", bpath), ("Trace_Client.tla", "Trace_Client.cfg", cpath)):
+            res = vlib.tlc_trace(spec, cfgf, path)
+            recs = vlib.read_ndjson(path)
+            for (idx, p, why) in res["violations"]:
+                if p == prop:
+                    a, b = vlib.run_of_record(recs, idx)
+                    verdict.violation(why, dict(kind=data["kind"], driver_args=args, record_index=idx, trace=recs[a:b][:400]))
+        log(f"re-run of the recorded driver invocation on the current tree: {verdict.violations} violation(s) of {prop}")
+    elif data.get("kind") == "handshake":
+        path = os.path.join(wd, "handshake.ndjson")
+        vlib.run_driver("handshake", [path, seed])
+        tr = vlib.tlc_trace("Trace_Handshake.tla", "Trace_Handshake.cfg", path)
+        recs = vlib.read_ndjson(path)
+        for (idx, p, why) in tr["violations"]:
+            verdict.violation(why, dict(kind="handshake", row=recs[idx - 1]))
     elif data.get("kind") == "tlc-mc":
         res = vlib.tlc_mc(data["module"], data["config"], workers=8, timeout=3300)
         if not res["ok"]:
